@@ -239,7 +239,7 @@ def check_fold(case):
         if not h['items'] and not case['term']:
             continue
         if b['items'] and not cmp.same(a['items'][-1], b['items'][-1], approx=False):
-            raise Violation('last streaming value != reduce value', lifetime_items=h['items'], reduce=a['items'], streaming=b['items'], **ctx)
+            raise Violation('last streaming value != reduce value', lifetime_items=h['items'], reduce_output=a['items'], streaming_output=b['items'], **ctx)
     # (e) isolation
     mutable = ACCS[case['acc']][3]
     if mutable:
